@@ -137,6 +137,8 @@ const char* String::findLastOf(const char* chars) const {return String::findLast
 
 String& String::replace(const String& needle, const String& replacement)
 {
+  if(needle.isEmpty()) // matches everywhere without consuming anything
+    return *this;
   const char* p = *this;
   const char* match = strstr(p, needle);
   if(!match)
@@ -183,6 +185,8 @@ const char* String::findLast(const char* in, const char* str)
     if(!match)
       return result;
     result = match;
+    if(!*match) // an empty str matched at the end
+      return result;
     match = strstr(match + 1, str);
   }
 }
